@@ -755,6 +755,10 @@ class RequestHandler(BaseProtocol, Generic[_Request]):
                 )
                 pre_handler_error.__cause__ = message.exc
                 message = ERROR
+            if not keepalive_timeout and not message.should_close:
+                # Keep-alive is switched off: the connection is closed right
+                # after this response, which must not announce a persistent one.
+                message = message._replace(should_close=True)
 
             # Important don't hold a reference to the current task
             # as on traceback it will prevent the task from being
